@@ -286,6 +286,7 @@ type Clause struct {
 
 type LoopSpec struct {
 	Invariants []Clause
+	Steps      []Clause // relation between the state at the head of an iteration (prev(e)) and at its back edge
 	Decreases  *Clause
 	Modifies   []string
 	Unroll     bool
@@ -530,6 +531,15 @@ func ParseContractFile(path string, into *ContractFile) error {
 						cl.Label = fmt.Sprintf("inv%d", len(ls.Invariants)+1)
 					}
 					ls.Invariants = append(ls.Invariants, cl)
+				case "step":
+					cl, err := parse(r2)
+					if err != nil {
+						return err
+					}
+					if cl.Label == "" {
+						cl.Label = fmt.Sprintf("step%d", len(ls.Steps)+1)
+					}
+					ls.Steps = append(ls.Steps, cl)
 				case "decreases":
 					cl, err := parse(r2)
 					if err != nil {
